@@ -6,6 +6,7 @@
 //!   (19 5 ty A B C s) (19 6 ty X Y s) (19 7 ty n) (19 8 ty op (an ad) (bn bd))
 //!   (19 9 ty op ka a kb b) (19 10 ty p r (x ..) (a b c d))
 //!   (19 11 tag fn abits bbits) (19 12 ty (x ..) (rows cols data) p r) (19 13 ty (d ..) (v ..) (rows cols data))
+//!   (19 14 ty n (data) (ddata) (xs) (dxs)) (19 15 ty n (data))
 use crate::guarded;
 use crate::num::{Enc, Fp, Rat};
 use crate::sx::*;
@@ -240,6 +241,25 @@ pub fn run(args: &[Sx]) -> Sx {
                 _ => bad_case(),
             }
         }
+        15 if args.len() == 4 => {
+            let Some(ty) = args[1].i64() else { return bad_case() };
+            match ty {
+                0 => inverse_any_case::<Rat>(&args[2..]),
+                1 => inverse_any_case::<Fp>(&args[2..]),
+                2 => inverse_any_case::<Wrapping<i64>>(&args[2..]),
+                3 => inverse_any_case::<Whole>(&args[2..]),
+                4 => inverse_any_case::<i64>(&args[2..]),
+                _ => bad_case(),
+            }
+        }
+        14 if args.len() == 7 => {
+            let Some(ty) = args[1].i64() else { return bad_case() };
+            match ty {
+                0 => wrapper_elem_case::<Rat>(&args[2..]),
+                1 => wrapper_elem_case::<Fp>(&args[2..]),
+                _ => bad_case(),
+            }
+        }
         5..=10 if args.len() >= 3 => {
             let Some(ty) = args[1].i64() else { return bad_case() };
             match ty {
@@ -263,17 +283,16 @@ fn from_usize_case(w: i64, tag: i64, n: usize) -> Sx {
     }
     match tag {
         12 => {
-            // floats: always Some, and the value is `n as f32` (never compared with the model)
+            // floats: always Some; the printed value is the crate's bit pattern, which the MODEL
+            // (Model/FloatConv.v: round to nearest even in integer arithmetic, proved nearest in
+            // Proofs/C19F.v) must name. The wrappers delegate; `n as f32` is what the macro says.
             let plain = f32::from_usize(n).map(|v| v.to_bits());
             let wr = <Wrapping<f32>>::from_usize(n).map(|v| v.0.to_bits());
             let sa = <Saturating<f32>>::from_usize(n).map(|v| v.0.to_bits());
             if plain != wr || plain != sa {
                 return inconsistent(1912);
             }
-            // the nearest f32 (round half to even), computed in integer arithmetic, and `as`
-            opt(plain
-                .filter(|b| *b == (n as f32).to_bits() && *b as u64 == nearest_float_bits(n as u64, 23, 127))
-                .map(|_| z(1)))
+            opt(plain.map(z))
         }
         13 => {
             let plain = f64::from_usize(n).map(|v| v.to_bits());
@@ -282,38 +301,10 @@ fn from_usize_case(w: i64, tag: i64, n: usize) -> Sx {
             if plain != wr || plain != sa {
                 return inconsistent(1913);
             }
-            opt(plain
-                .filter(|b| *b == (n as f64).to_bits() && *b == nearest_float_bits(n as u64, 52, 1023))
-                .map(|_| z(1)))
+            opt(plain.map(z))
         }
         _ => dispatch_all!(w, tag, fu(n)),
     }
-}
-
-/// Bit pattern of the binary float (`mant` explicit mantissa bits, exponent bias `bias`) nearest
-/// to the count n, ties to even — integer arithmetic only, independent of the `as` casts.
-fn nearest_float_bits(n: u64, mant: u32, bias: u64) -> u64 {
-    if n == 0 {
-        return 0;
-    }
-    let mut e = 63 - n.leading_zeros(); // floor(log2 n)
-    let mut q: u128;
-    if e <= mant {
-        q = (n as u128) << (mant - e);
-    } else {
-        let shift = e - mant;
-        q = (n >> shift) as u128;
-        let rem = n & ((1u64 << shift) - 1);
-        let half = 1u64 << (shift - 1);
-        if rem > half || (rem == half && q & 1 == 1) {
-            q += 1;
-        }
-        if q == 1u128 << (mant + 1) {
-            q >>= 1;
-            e += 1;
-        }
-    }
-    (((e as u64) + bias) << mant) | ((q as u64) & ((1u64 << mant) - 1))
 }
 
 fn zo<T: ZeroOne + IntEnc>() -> Sx {
@@ -941,6 +932,147 @@ where
         l(vec![tpi.number.enc(), tpi.derivative.enc()]),
         l(vec![rpi.number.enc(), opt(rpi.history().map(|_| z(0))), z(rpi.index)]),
     ])
+}
+
+/// (19 15 ty n (data)): determinant and inverse (Matrix route: free fn + method; Tensor route: free
+/// fn on &Tensor, Tensor::inverse, TensorView::inverse) at any `Numeric` type — in particular types
+/// whose `x / 0` panics: a singular input must answer None without dividing.
+fn inverse_any_case<T>(args: &[Sx]) -> Sx
+where
+    T: Numeric + WEnc + PartialEq + 'static,
+    for<'a> &'a T: NumericRef<T>,
+{
+    use easy_ml::linear_algebra as la;
+    use easy_ml::tensors::views::TensorView;
+    let (Some(n), Some(items)) = (args[0].usize(), args[1].list()) else { return bad_case() };
+    let Some(data) = items.iter().map(T::wdec).collect::<Option<Vec<T>>>() else { return bad_case() };
+    if !(1..=3).contains(&n) || data.len() != n * n {
+        return bad_case();
+    }
+    let matrix = Matrix::from_flat_row_major((n, n), data.clone());
+    let tensor = Tensor::from([(dim(0), n), (dim(1), n)], data);
+    let rows_of = |v: Vec<T>| -> Sx { l((0..n).map(|i| l(v[i * n..(i + 1) * n].iter().map(|x| x.wenc()).collect())).collect()) };
+    let out = |r: Option<Option<Sx>>| match r {
+        Some(v) => ok(opt(v)),
+        None => panicked(),
+    };
+    let det = [
+        out(guarded(|| la::determinant::<T>(&matrix).map(|d| d.wenc()))),
+        out(guarded(|| matrix.determinant().map(|d| d.wenc()))),
+        out(guarded(|| la::determinant_tensor::<T, _, _>(&tensor).map(|d| d.wenc()))),
+    ];
+    let inv_m = [
+        out(guarded(|| la::inverse::<T>(&matrix).map(|r| rows_of(r.row_major_iter().collect())))),
+        out(guarded(|| matrix.inverse().map(|r| rows_of(r.row_major_iter().collect())))),
+    ];
+    let inv_t = [
+        out(guarded(|| la::inverse_tensor::<T, _, _>(&tensor).map(|r| rows_of(r.iter().collect())))),
+        out(guarded(|| tensor.inverse().map(|r| rows_of(r.iter().collect())))),
+        out(guarded(|| TensorView::from(&tensor).inverse().map(|r| rows_of(r.iter().collect())))),
+    ];
+    if det.iter().any(|d| *d != det[0]) || inv_m[0] != inv_m[1] || inv_t.iter().any(|d| *d != inv_t[0]) {
+        return inconsistent(1995);
+    }
+    l(vec![det[0].clone(), inv_m[0].clone(), inv_t[0].clone()])
+}
+
+/// The generic routines at an element type E (Trace<T> or Record<T>): every scalar of every
+/// result encoded by `enc`.
+fn wrapper_routines<E>(n: usize, m: &[E], xs: &[E], enc: &dyn Fn(&E) -> Sx) -> Sx
+where
+    E: easy_ml::numeric::extra::Real + Numeric + PartialEq,
+    for<'a> &'a E: easy_ml::numeric::extra::RealRef<E> + NumericRef<E>,
+{
+    use easy_ml::linear_algebra as la;
+    let matrix = Matrix::from_flat_row_major((n, n), m.to_vec());
+    let tensor = Tensor::from([(dim(0), n), (dim(1), n)], m.to_vec());
+    let vector = Tensor::from([(dim(0), xs.len())], xs.to_vec());
+    let scalar = |r: Option<E>| match r {
+        Some(v) => ok(enc(&v)),
+        None => panicked(),
+    };
+    let rows_of = |v: Vec<E>| -> Sx { l((0..n).map(|i| l(v[i * n..(i + 1) * n].iter().map(enc).collect())).collect()) };
+    // determinant / inverse: free function and method must agree on every encoded scalar
+    let det_m = guarded(|| la::determinant::<E>(&matrix).map(|d| enc(&d)));
+    let det_m2 = guarded(|| matrix.determinant().map(|d| enc(&d)));
+    let det_t = guarded(|| la::determinant_tensor::<E, _, _>(&tensor).map(|d| enc(&d)));
+    let det_t2 = guarded(|| tensor.determinant().map(|d| enc(&d)));
+    let inv_m = guarded(|| la::inverse::<E>(&matrix).map(|r| rows_of(r.row_major_iter().collect())));
+    let inv_m2 = guarded(|| matrix.inverse().map(|r| rows_of(r.row_major_iter().collect())));
+    let inv_t = guarded(|| la::inverse_tensor::<E, _, _>(&tensor).map(|r| rows_of(r.iter().collect())));
+    let inv_t2 = guarded(|| tensor.inverse().map(|r| rows_of(r.iter().collect())));
+    if det_m != det_m2 || det_t != det_t2 || inv_m != inv_m2 || inv_t != inv_t2 {
+        return inconsistent(1996);
+    }
+    let (Some(det_m), Some(det_t), Some(inv_m), Some(inv_t)) = (det_m, det_t, inv_m, inv_t) else {
+        return inconsistent(1997);
+    };
+    let product = guarded(|| &matrix * &matrix).map(|r| l(r.row_major_iter().map(|x| enc(&x)).collect()));
+    let product2 = guarded(|| matrix.clone() * matrix.clone()).map(|r| l(r.row_major_iter().map(|x| enc(&x)).collect()));
+    if product != product2 {
+        return inconsistent(1998);
+    }
+    l(vec![
+        opt(det_m),
+        opt(det_t),
+        opt(inv_m),
+        opt(inv_t),
+        scalar(guarded(|| la::mean(xs.iter().cloned()))),
+        scalar(guarded(|| la::variance(xs.iter().cloned()))),
+        match product {
+            Some(p) => ok(p),
+            None => panicked(),
+        },
+        l(la::softmax(xs.iter().cloned()).iter().map(enc).collect()),
+        enc(&vector.euclidean_length()),
+        enc(&la::f1_score::<E>(xs[0].clone(), xs[xs.len() - 1].clone())),
+    ])
+}
+
+/// (19 14 ty n (data) (ddata) (xs) (dxs)): Trace<T> and Record<T> (all inputs variables on one
+/// tape) as element types; Record's answer is (number, sum_i d/d input_i * seed_i).
+fn wrapper_elem_case<T>(args: &[Sx]) -> Sx
+where
+    T: easy_ml::numeric::extra::Real + Numeric + Primitive + Enc + PartialEq + 'static,
+    for<'a> &'a T: easy_ml::numeric::extra::RealRef<T> + NumericRef<T>,
+{
+    let (Some(n), Some(data), Some(ddata), Some(xs), Some(dxs)) = (
+        args[0].usize(),
+        crate::num::dec_list::<T>(&args[1]),
+        crate::num::dec_list::<T>(&args[2]),
+        crate::num::dec_list::<T>(&args[3]),
+        crate::num::dec_list::<T>(&args[4]),
+    ) else {
+        return bad_case();
+    };
+    if !(1..=3).contains(&n) || data.len() != n * n || ddata.len() != n * n || xs.is_empty() || xs.len() != dxs.len() {
+        return bad_case();
+    }
+    let lift = |v: &[T], d: &[T]| -> Vec<Trace<T>> {
+        v.iter().zip(d).map(|(x, dx)| Trace { number: x.clone(), derivative: dx.clone() }).collect()
+    };
+    let by_trace = wrapper_routines::<Trace<T>>(n, &lift(&data, &ddata), &lift(&xs, &dxs), &|t: &Trace<T>| {
+        l(vec![t.number.enc(), t.derivative.enc()])
+    });
+    let tape = WengertList::new();
+    let rm: Vec<Record<T>> = data.iter().map(|x| Record::variable(x.clone(), &tape)).collect();
+    let rx: Vec<Record<T>> = xs.iter().map(|x| Record::variable(x.clone(), &tape)).collect();
+    let inputs: Vec<(Record<T>, T)> =
+        rm.iter().cloned().zip(ddata.iter().cloned()).chain(rx.iter().cloned().zip(dxs.iter().cloned())).collect();
+    let by_record = wrapper_routines::<Record<T>>(n, &rm, &rx, &|r: &Record<T>| {
+        let mut directional = T::zero();
+        if r.history().is_some() {
+            let grad = r.derivatives();
+            for (x, seed) in inputs.iter() {
+                directional = directional + grad.at(x).clone() * seed.clone();
+            }
+        }
+        l(vec![r.number.enc(), directional.enc()])
+    });
+    if by_trace != by_record {
+        return l(vec![z(-8), z(1999), by_trace, by_record]);
+    }
+    by_trace
 }
 
 /// (19 11 tag fn abits bbits): Sqrt / Exp / Ln / Sin / Cos (by value and by reference), Pow (all
